@@ -675,7 +675,7 @@ def mon_c14(run, case, stmts):
                 run.v("C14", "invoke_tenant_wrong", "START", f"{p}: TenantId {o.get('TenantId')!r}, expected {s.get('tenant')!r}")
     # the code between create and result runs in every invocation that reaches it: checked via observations of the between block
     for p, s in stmts.items():
-        if s["op"] != "callback" or not s.get("between"):
+        if s["op"] != "callback" or not s.get("between") or s["between"][0]["op"] in ("sleep", "log", "try", "raise", "gate", "open"):
             continue
         for inv in {o["inv"] for o in run.obs if o["path"] == p + "#create" and o["out"] == "value"}:
             reached = [o for o in run.obs if o["path"].startswith(p + "~/") and o["inv"] == inv]
